@@ -124,6 +124,37 @@ theorem hdr_lookup_total (m : Mode) (e : Endian) (h : Hdr) (bases : Bases) (a : 
     (hs : SizeOk m h.asz) (hc : h.fdeCount < 2 ^ 64) : (lookup m e h bases a).Normal :=
   lookup_normal m e h bases a hs hc
 
+/-- **`.eh_frame_hdr` round trip.** `encodeHdr` (Spec/Frame.lean: version 1, the three encoding
+bytes, `eh_frame_ptr`, `fde_count`, the rows) parses to exactly the header it encodes: the
+`eh_frame_ptr` pointer (any valid encoding, base present), the count, the table encoding and the
+table bytes at their offset. (*Partial* like `encoded_pointer_roundtrip_partial`: operand formats
+other than sleb128.) -/
+theorem hdr_roundtrip_partial (m : Mode) (e : Endian) (bases : Bases) (asz : Nat) (h : AHdr)
+    (hw : h.WF e bases asz) :
+    parseHdr m e bases asz (encodeHdr e asz h) = .ok (h.expect e bases asz) :=
+  parseHdr_encoded m e bases asz h hw
+
+/-- **Binary search over an encoded table.** For an abstract header with a non-empty table in a
+fixed-size direct encoding (2/4/8-byte entries, every application with its base present) whose
+rows are sorted by the *decoded* initial location (`hdrKey`: base + operand modulo the address
+size, pc-relative rows each from their own offset): the header parses, and `lookup a` returns the
+decoded FDE address (`hdrVal`) of the row with the greatest initial location `≤ a`, or of the
+first row when all are above `a`. -/
+theorem hdr_search_on_encoded (m : Mode) (e : Endian) (bases : Bases) (asz : Nat) (h : AHdr) (a size : Nat)
+    (hw : h.WF e bases asz) (hs : tableEntrySize h.tblEnc = some size) (hdirect : peIndirect h.tblEnc = false)
+    (hne : 1 ≤ h.rows.length) (hbig : (h.tableBytes e asz).length < 2 ^ 64)
+    (hok : ∀ i r, h.rows[i]? = some r → h.RowOk e bases asz (h.tableOff e asz) size i r)
+    (hsorted : ∀ i j, i ≤ j → j < h.rows.length →
+      hdrKey bases asz h (h.tableOff e asz) size i ≤ hdrKey bases asz h (h.tableOff e asz) size j) :
+    parseHdr m e bases asz (encodeHdr e asz h) = .ok (h.expect e bases asz) ∧
+    ∃ idx, idx < h.rows.length ∧
+      lookup m e (h.expect e bases asz) bases a = .ok (.direct (hdrVal bases asz h (h.tableOff e asz) size idx)) ∧
+      ((hdrKey bases asz h (h.tableOff e asz) size idx ≤ a ∧
+          ∀ j, j < h.rows.length → hdrKey bases asz h (h.tableOff e asz) size j ≤ a →
+            hdrKey bases asz h (h.tableOff e asz) size j ≤ hdrKey bases asz h (h.tableOff e asz) size idx) ∨
+       (idx = 0 ∧ ∀ j, j < h.rows.length → a < hdrKey bases asz h (h.tableOff e asz) size j)) :=
+  hdr_encoded_lookup m e bases asz h a size hw hs hdirect hne hbig hok hsorted
+
 /-! ## (4) linear search -/
 
 /-- `fde_for_address` is a scan of what the entries iterator yields: CIEs are skipped, each FDE
@@ -490,5 +521,32 @@ example : (entriesOf ixCfg {} ixSec).2 = .ok () ∧
   rw [h] at hf
   simp only [List.mem_cons, List.not_mem_nil, or_false] at hf
   rcases hf with h | h <;> subst h <;> (unfold NoWrap; decide +kernel)
+
+/-! ### the hypotheses of `hdr_roundtrip_partial` / `hdr_search_on_encoded` are satisfiable -/
+
+/-- the abstract form of `exHdr` -/
+def exAHdr : AHdr :=
+  { ptrEnc := 0x03, cntEnc := 0x03, tblEnc := 0x03, ptrOp := 0x1000,
+    rows := [(0x10, 0x1020), (0x20, 0x1040), (0x30, 0x1060)] }
+
+example : encodeHdr .little 8 exAHdr = exHdr := by decide +kernel
+
+example : exAHdr.WF .little {} 8 := by
+  refine ⟨by decide, by decide +kernel, by decide +kernel, ?_, by decide +kernel⟩
+  unfold PtrOk; decide +kernel
+
+example : tableEntrySize exAHdr.tblEnc = some 4 ∧ peIndirect exAHdr.tblEnc = false ∧
+    ∀ i r, exAHdr.rows[i]? = some r → exAHdr.RowOk .little {} 8 (exAHdr.tableOff .little 8) 4 i r := by
+  refine ⟨by decide, by decide, ?_⟩
+  intro i r hi
+  have hlt : i < 3 := by
+    rcases Nat.lt_or_ge i 3 with h | h
+    · exact h
+    · have : exAHdr.rows[i]? = none := List.getElem?_eq_none (by simpa [exAHdr] using h)
+      rw [this] at hi; simp at hi
+  have : i = 0 ∨ i = 1 ∨ i = 2 := by omega
+  rcases this with h | h | h <;> subst h <;>
+    (simp only [exAHdr, List.getElem?_cons_zero, List.getElem?_cons_succ, Option.some.injEq] at hi; subst hi;
+     unfold AHdr.RowOk PtrOk; decide +kernel)
 
 end Gimli.Props.C05
